@@ -6,12 +6,17 @@ import (
 	"errors"
 	e "github.com/aml-org/amf-custom-validator/pkg/events"
 	"io"
+	"unicode/utf8"
 )
 
 func ProcessInput(jsonldText string, debug bool, receiver *chan e.Event) (normalized any, err error) {
 	defer recoverAsError("input data processing", &err)
 
 	dispatchEvent(e.NewEvent(e.InputDataParsingStart), receiver)
+	// JSON is UTF-8; the decoder would replace the bytes of another encoding inside strings without a word
+	if !utf8.ValidString(jsonldText) {
+		return nil, errors.New("input data is not valid UTF-8")
+	}
 	decoder := json.NewDecoder(bytes.NewBuffer([]byte(jsonldText)))
 	decoder.UseNumber()
 
